@@ -5,6 +5,7 @@ import sys
 import os
 import json
 import argparse
+import re
 from pel.datastream import DataStream
 from collections import OrderedDict
 from pel.peltool.private_header import PrivateHeader
@@ -180,14 +181,22 @@ def buildOutput(sections: list, out: OrderedDict):
             counts[name][1] = modifier + 1
 
 
+# A line of indented JSON that starts with an object key: optional spaces, a
+# string literal (with backslash escapes), a colon.
+KEY_RE = re.compile(r' *"(?:[^"\\]|\\.)*":')
+
+
 def prettyPrint(Mdata: str, desiredSpace: int = 34) -> str:
     # After index of these 2 characters ":  need to add desired space.
     CHARACTER_SPACE = 2
     lines = Mdata.split("\n")
     for i in range(len(lines)):
         line = lines[i]
-        if "\":" in line and "{" not in line:
-            ind = line.index("\":")
+        # Only align a line that starts with a JSON key; a '":' further along
+        # (or inside the key itself) is string content and must not be touched.
+        key = KEY_RE.match(line)
+        if key and "{" not in line:
+            ind = key.end() - 2
             spaces = (desiredSpace - ind) * " "    # Calculating spaces needed to add to get the desired spacing.
             ind += CHARACTER_SPACE
             lines[i] = line[:ind] + spaces + line[ind:]
